@@ -19,6 +19,12 @@
 (***************************************************************************)
 EXTENDS Topics, FiniteSets, TLC, Integers
 
+\* Named deviations (known findings, DESIGN.md 2.5): the empty set is the specification proper.  A trace rejected
+\* by the specification proper is re-validated with exactly one listed deviation switched on; each deviation
+\* describes one recorded defect of the implementation as precisely as possible and nothing else.
+CONSTANT Deviations
+Dev(d) == d \in Deviations
+
 VARIABLES
   cfg,      \* scenario configuration [mode, qq0 (queue_qos0), maxinflight]
   subs,     \* set of [c, n, share, lv, sys, o]   o = [qos, nl, rap, rh, id];  key (c, n)
@@ -138,7 +144,10 @@ SubKey(s) == <<s.c, s.n>>
 Replay(c, sub, existed, ver, n) ==
   IF sub.share # "" \/ (ver = 5 /\ (sub.o.rh = 2 \/ (sub.o.rh = 1 /\ existed))) THEN {}
   ELSE {[key |-> sub.n, tag |-> ret[t].tag, topic |-> t, src |-> RET, idx |-> 0 - n,
-         qos |-> Min(ret[t].qos, sub.o.qos), retains |-> {TRUE}, ids |-> {}, anyids |-> TRUE,
+         qos |-> Min(ret[t].qos, sub.o.qos),
+         \* [MQTT-3.3.1-8], MQTT 5 3.8.3.1: a message sent because a subscription was made has RETAIN = 1
+         retains |-> IF Dev("replay_retain_follows_rap") THEN {sub.o.rap} ELSE {TRUE},
+         ids |-> {}, anyids |-> TRUE,
          opt |-> FALSE, carried |-> FALSE] : t \in {x \in DOMAIN ret : Match(sub.lv, ret[x].lv)}}
 
 \* SUBSCRIBE with the topics in order (ts: sequence of [n, share, lv, sys, qos, nl, rap, rh]); the broker owes a
@@ -283,6 +292,26 @@ PidOK(c, p) == IF p.qos = 0 THEN TRUE
 
 Window(c, k) == Cardinality({e \in Infl(c) : e.phase = "pub" \/ e.phase = "rel"})
 
+\* does obligation ob of session c explain the PUBLISH p read on k ?
+FitsOwed(c, k, ob, p) ==
+  /\ ob.tag = p.tag /\ ob.topic = p.topic /\ ob.qos = p.qos /\ p.retain \in ob.retains
+  /\ IdsOK(k, p.ids, ob)
+  /\ (p.dup => ob.carried)
+  /\ OrderOK(c, ob, p.dup)
+
+\* does the group obligation g explain it, c being member mb ?
+FitsGroup(c, k, g, mb, p) ==
+  /\ mb.c = c /\ g.tag = p.tag /\ g.topic = p.topic
+  /\ p.qos = Min(g.mqos, mb.qos) /\ p.retain = (g.retain /\ mb.rap)
+  /\ (conn[k].ver = 5 => SeqToSet(p.ids) = {mb.id} \ {0}) /\ (conn[k].ver # 5 => p.ids = <<>>)
+  /\ (p.dup \/ g.idx >= Get(last, <<c, g.src>>, 0))
+
+Explained(k, p) ==
+  LET c == conn[k].cid IN
+  \/ \E ob \in Owed(c) : FitsOwed(c, k, ob, p)
+  \/ \E g \in gowed : \E mb \in g.members : FitsGroup(c, k, g, mb, p)
+  \/ (p.dup /\ p.qos > 0 /\ \E e \in Infl(c) : e.pid = p.pid /\ e.tag = p.tag /\ e.phase = "pub" /\ e.qos = p.qos)
+
 \* PUBLISH read on k: p = [topic, tag, qos, retain, dup, pid, ids]
 Deliver(k, p) ==
   LET c == conn[k].cid
@@ -290,10 +319,7 @@ Deliver(k, p) ==
   /\ Up(k)
   /\ \/ \* (a) a fresh copy: discharges one obligation of this session
         /\ \E ob \in Owed(c) :
-             /\ ob.tag = p.tag /\ ob.topic = p.topic /\ ob.qos = p.qos /\ p.retain \in ob.retains
-             /\ IdsOK(k, p.ids, ob)
-             /\ (p.dup => ob.carried)
-             /\ OrderOK(c, ob, p.dup)
+             /\ FitsOwed(c, k, ob, p)
              /\ owed' = [owed EXCEPT ![c] = @ \ {ob}]
              /\ last' = IF ob.src = RET THEN last ELSE Put(last, <<c, ob.src>>, Max(ob.idx, Get(last, <<c, ob.src>>, 0)))
         /\ PidOK(c, p)
@@ -301,12 +327,9 @@ Deliver(k, p) ==
         /\ UNCHANGED gowed
      \/ \* (b) the copy of a share group, this session being the member the broker picked
         /\ \E g \in gowed : \E mb \in g.members :
-             /\ mb.c = c /\ g.tag = p.tag /\ g.topic = p.topic
-             /\ p.qos = Min(g.mqos, mb.qos) /\ p.retain = (g.retain /\ mb.rap)
-             /\ (conn[k].ver = 5 => SeqToSet(p.ids) = {mb.id} \ {0}) /\ (conn[k].ver # 5 => p.ids = <<>>)
+             /\ FitsGroup(c, k, g, mb, p)
              /\ gowed' = gowed \ {g}
              /\ last' = Put(last, <<c, g.src>>, Max(g.idx, Get(last, <<c, g.src>>, 0)))
-             /\ (p.dup \/ g.idx >= Get(last, <<c, g.src>>, 0))
         /\ PidOK(c, p)
         /\ infl' = track
         /\ UNCHANGED owed
